@@ -481,7 +481,30 @@ class Scenario:
         self.queries += 1
         return r.status
 
+    def vacuity_guard(self):
+        """reachability witness (s2.3): the assumptions together with the recorded path condition must be satisfiable, otherwise
+        every Real obligation of this scenario was discharged vacuously"""
+        if getattr(self, '_vac_done', False):
+            return
+        self._vac_done = True
+        if not any(r['kind'] in ('real', 'side') and r['status'] == 'unsat' and not r.get('trivial') for r in self.results):
+            return
+        fs = self.base(True)
+        if self.post_subst:
+            zs = [(self.enc.var(k), R.Q(Fraction(v))) for k, v in self.post_subst.items()]
+            fs = [z3.substitute(f, *zs) for f in fs]
+        r = R.solve('witness', fs, min(self.timeout, 30))
+        self.queries += 1
+        if r.status == 'sat':
+            self._rec('witness: assumptions and path condition are jointly satisfiable (obligations not vacuous)', 'witness', 'int_ok', r.t)
+        elif r.status == 'unsat':
+            self._rec('witness: assumptions and path condition are jointly satisfiable (obligations not vacuous)', 'witness', 'sat', r.t, confirmed=False,
+                      note='the assumptions of this scenario contradict each other or the recorded path: its obligations hold vacuously')
+        else:
+            self._rec('witness: assumptions and path condition are jointly satisfiable (obligations not vacuous)', 'witness', 'unknown', r.t, detail=r.detail)
+
     def finish(self):
+        self.vacuity_guard()
         return {'scenario': self.name, 'results': self.results, 'queries': self.queries, 'solver_s': round(self.solver_time, 3),
                 'nodes': len(self.dag.nodes), 'path_len': len(self.dag.path)}
 
